@@ -1,6 +1,6 @@
 """C17 — external actions move once through request, claim and settlement — durably."""
 from ..prims import *
-from ..guards import check_strength
+from ..guards import check_strength, check_zip_lengths
 from ..guards import find_guard, find_presence_guard, side_tokens
 from ..baselines import baseline
 
@@ -149,6 +149,7 @@ def run(ctx):
         rep.check(bool(val) and dominates(cap_, val, fr) is None, "C17.R2", "coordinator-append:validated-first", "transaction validated before any append", "append without validation", site=cap_.loc())
 
     # ---- R3
+    _zip_done = set()
     for (path, variant, ta, tb) in GUARDS:
         f = prog.fn(path)
         if not tb:
@@ -158,6 +159,7 @@ def run(ctx):
         rep.check(st == "ok", "C17.R3", "guard:%s:%s:%s~%s" % (f.name, variant, "+".join(sorted(ta)), "+".join(sorted(tb))), detail, "%s — %s" % (st, detail), site=f.loc())
         if st == "ok":
             check_strength(rep, "C17.R3", "guard:%s:%s:%s~%s" % (f.name, variant, "+".join(sorted(ta)), "+".join(sorted(tb))), "C17", prog, f, PE, variant, ta, tb)
+        check_zip_lengths(rep, "C17.R3", prog, f, _zip_done)
     for (path, variant, need) in PRESENCE:
         f = prog.fn(path)
         st, detail = find_presence_guard(prog, f, PE, variant, need)
